@@ -22,6 +22,18 @@ import vlib
 
 LEVEL = "model_checking"
 
+# vlib.Ctx removes the property's earlier replay files when it is created -- also the one named by --replay.
+# Read it while this module is imported (bin/check imports the check before it creates the Ctx).
+_PRELOADED = {}
+try:
+    import sys as _sys
+    if "--replay" in _sys.argv:
+        _p = _sys.argv[_sys.argv.index("--replay") + 1]
+        with open(_p) as _fh:
+            _PRELOADED[os.path.abspath(_p)] = _fh.read()
+except Exception:
+    pass
+
 REGISTRY = dict(
     level="model_checking",
     text="TLC enumerates a bounded universe of multi-file IDL programs, runs the transcribed resolver (layer B) on each and "
@@ -631,7 +643,11 @@ def run(ctx, args):
     harness = ctx.build_harness("inproc")
     stats = D()
     if args.replay:
-        return replay(ctx, harness, json.load(open(args.replay)))
+        text = _PRELOADED.get(os.path.abspath(args.replay))
+        if text is None:
+            with open(args.replay) as fh:
+                text = fh.read()
+        return replay(ctx, harness, json.loads(text))
     # which getEnum does the code under test have?  (layer B transcribes either; verdicts never depend on B)
     probe = run_harness(ctx, harness, [{"id": 0, "main": "m.thrift", "files": {
         "m.thrift": 'include "a.thrift"\ntypedef a.E LE\nconst LE K = LE.V1\n', "a.thrift": "enum E {\nV1,\nV2,\n}\n"}}], "probe")[0]
